@@ -6,6 +6,7 @@ use std::io::{BufRead, Write};
 use std::panic::{catch_unwind, AssertUnwindSafe};
 
 mod ops_names;
+mod ops_lexer;
 
 fn s(v: &Value, k: &str) -> String {
     // strings are passed as arrays of bytes ("bytes") or as plain JSON strings
@@ -24,6 +25,7 @@ fn dispatch(v: &Value) -> Value {
     match op {
         "ping" => json!({"ok": true}),
         "alt_key" | "semver_compat" | "namemap" | "semver_parse" => ops_names::run(op, v),
+        "lexer_spans" | "block_comment_length" | "lex_string" => ops_lexer::run(op, v),
         _ => json!({"error": format!("unknown op {op}")}),
     }
 }
